@@ -28,6 +28,10 @@ std::vector<SMutex *> mutex_by_num;
 std::vector<SCond *> cond_by_num;
 std::vector<SRw *> rw_by_num;
 std::vector<int> thread_tasks;             // simulated thread number -> task id
+// Native thread ids. Like glibc (which recycles the stack, and with it the pthread_t value, of a thread that was joined or that
+// finished detached) the most recently released id is handed to the next thread created: a stale id names a LIVE other thread.
+std::vector<int> slot_task;                // native id slot -> task id, -1 = free
+std::vector<int> free_slots;               // released slots, most recent last
 int last_created_by[MAXT][shim::K_KINDS];
 int created[shim::K_KINDS];
 uint64_t n_dtor_calls = 0;
@@ -142,7 +146,7 @@ void shim_run_begin() {
   for (auto *x : cond_by_num) delete x;
   for (auto *x : rw_by_num) delete x;
   mutexes.clear(); conds.clear(); rws.clear(); keys.clear();
-  mutex_by_num.clear(); cond_by_num.clear(); rw_by_num.clear(); thread_tasks.clear();
+  mutex_by_num.clear(); cond_by_num.clear(); rw_by_num.clear(); thread_tasks.clear(); slot_task.clear(); free_slots.clear();
   memset(last_created_by, -1, sizeof last_created_by);
   memset(created, 0, sizeof created);
   n_dtor_calls = 0;
@@ -403,6 +407,30 @@ int simk_pthread_rwlock_unlock(pthread_rwlock_t *l) {
   return 0;
 }
 
+
+// ---------------------------------------------------------------- native thread ids
+static int slot_alloc(Task *t) {
+  int s;
+  if (!free_slots.empty()) { s = free_slots.back(); free_slots.pop_back(); probe("thread.native_id_reused"); }
+  else { s = (int)slot_task.size(); slot_task.push_back(-1); }
+  slot_task[s] = t->id; t->native = s;
+  return s;
+}
+static void slot_release(Task *t) {
+  if (t->native < 0 || t->native >= (int)slot_task.size() || slot_task[t->native] != t->id) return;
+  slot_task[t->native] = -1; free_slots.push_back(t->native);
+}
+// detached threads give their id back when they are gone
+static void reap_detached() {
+  for (int id : thread_tasks) { Task *t = task(id); if (t && t->detached && (t->state == T_FINISHED || t->state == T_DEAD)) slot_release(t); }
+}
+static Task *thread_of(pthread_t th) {
+  int s = (int)(uintptr_t)th - 1;
+  if (s < 0 || s >= (int)slot_task.size() || slot_task[s] < 0) return nullptr;
+  return task(slot_task[s]);
+}
+static pthread_t id_of(Task *t) { if (t->native < 0) slot_alloc(t); return (pthread_t)(uintptr_t)(t->native + 1); }
+
 // ---------------------------------------------------------------- threads
 int simk_pthread_create(pthread_t *th, const pthread_attr_t *attr, void *(*fn)(void *), void *arg) {
   // The library holds its creation spinlock across this call. In flavour A the spinlock is real machine code without
@@ -414,26 +442,31 @@ int simk_pthread_create(pthread_t *th, const pthread_attr_t *attr, void *(*fn)(v
   int detach = PTHREAD_CREATE_JOINABLE;
   if (attr) pthread_attr_getdetachstate(attr, &detach);
   int num = (int)thread_tasks.size();
+  reap_detached();
   Task *t = spawn(c->proc, [fn, arg]() { Task *me = cur(); me->retval = fn(arg); });
   t->is_thread = true;
   t->detached = detach == PTHREAD_CREATE_DETACHED;
+  slot_alloc(t);
   thread_tasks.push_back(t->id);
   created[shim::K_THREAD]++;
   last_created_by[c->id][shim::K_THREAD] = num;
-  *th = (pthread_t)(uintptr_t)(t->id + 1);
+  *th = id_of(t);
   ev("thread_create", t->id, t->detached);
   return 0;
 }
 int simk_pthread_join(pthread_t th, void **ret) {
   yield_point();
   Task *c = cur();
-  int id = (int)(uintptr_t)th - 1;
-  Task *t = task(id);
+  Task *t = thread_of(th);
   if (!t || !t->is_thread) return ESRCH;
   if (t->detached || t->joined) { probe("thread.join_invalid"); return EINVAL; }
   if (t == c) return EDEADLK;
-  while (t->state != T_FINISHED && t->state != T_DEAD) block(B_JOIN, t->id);
+  while (t->state != T_FINISHED && t->state != T_DEAD) {
+    block(B_JOIN, t->id);
+    if (t->detached) { probe("thread.detached_while_joined"); return EINVAL; }
+  }
   t->joined = true;
+  slot_release(t);
   c->vc.join(t->vc);
   if (ret) *ret = t->retval;
   ev("thread_join", t->id);
@@ -448,29 +481,41 @@ void simk_pthread_exit(void *ret) {
 }
 pthread_t simk_pthread_self(void) {
   Task *t = cur();
-  return (pthread_t)(uintptr_t)(t ? t->id + 1 : 0);
+  return t ? id_of(t) : (pthread_t)0;
 }
 int simk_pthread_setname_np(pthread_t th, const char *name) {
   yield_point();
-  int id = (int)(uintptr_t)th - 1;
-  Task *t = task(id);
+  Task *t = thread_of(th);
   if (!t) return ESRCH;
   if (strlen(name) > 15) return ERANGE;
   if (t->state == T_FINISHED || t->state == T_DEAD) return ESRCH;
-  ev("thread_setname", id);
+  ev("thread_setname", t->id);
   return 0;
 }
 int simk_pthread_getschedparam(pthread_t th, int *policy, struct sched_param *sp) {
-  int id = (int)(uintptr_t)th - 1;
-  Task *t = task(id);
+  Task *t = thread_of(th);
   if (!t) return ESRCH;
   *policy = SCHED_OTHER; memset(sp, 0, sizeof *sp);
   return 0;
 }
 int simk_pthread_setschedparam(pthread_t th, int, const struct sched_param *) {
-  int id = (int)(uintptr_t)th - 1;
-  return task(id) ? 0 : ESRCH;
+  return thread_of(th) ? 0 : ESRCH;
 }
+}  // extern "C"
+namespace sim { namespace shim {
+int detach_native(pthread_t th) {
+  yield_point();
+  Task *t = thread_of(th);
+  if (!t || !t->is_thread) return ESRCH;
+  if (t->detached || t->joined) return EINVAL;
+  t->detached = true;
+  ev("thread_detach", t->id);
+  // somebody blocked in pthread_join on this thread now waits on a detached thread: glibc answers EINVAL
+  for (int i = 0; i < ntasks(); i++) { Task *w = task(i); if (w->state == T_BLOCKED && w->bkind == B_JOIN && w->bobj == t->id) wake(w); }
+  if (t->state == T_FINISHED || t->state == T_DEAD) slot_release(t);
+  return 0;
+} } }
+extern "C" {
 int simk_sched_yield(void) { if (cur()) cur()->yielded = true; yield_point(); return 0; }
 
 // ---------------------------------------------------------------- TLS keys
